@@ -124,7 +124,27 @@ class HandlerEval:
             raise AnalysisError(f"KeyringSAXContentHandler: statement {type(st).__name__} outside the fragment")
 
 
+def repeated_elements_accumulate(chk: Check, repo: Repo) -> None:
+    """"load exactly what they contain": what a loop over child elements collects under a key read from the child is
+    accumulated - `self.<dict>[<child key>] = <child value>` lets a second element with the same key replace what the
+    first (signed) one said (the senders of a group address listed twice for one interface)."""
+    n = 0
+    for f in repo.all_functions():
+        if f.module.name != M:
+            continue
+        for loop in [x for x in walk_local(f.node) if isinstance(x, ast.For) and "childNodes" in ast.unparse(x.iter)]:
+            for st in [x for b in loop.body for x in ast.walk(b)]:
+                if isinstance(st, ast.Assign) and len(st.targets) == 1 and isinstance(st.targets[0], ast.Subscript) and ast.unparse(st.targets[0].value).startswith("self."):
+                    n += 1
+                    chk.ob("repeated-elements-accumulate", f.site(st), False, f"{f.qualname}: `{ast.unparse(st)[:90]}` inside the loop over child elements overwrites the entry of an element seen before", key=f"accumulate|{f.qualname}|{ast.unparse(st.targets[0].value)}")
+                elif isinstance(st, ast.Call) and isinstance(st.func, ast.Attribute) and st.func.attr in ("append", "extend") and "self." in ast.unparse(st.func.value):
+                    n += 1
+                    chk.ob("repeated-elements-accumulate", f.site(st), True, f"{f.qualname}: `{ast.unparse(st)[:90]}` accumulates", key=f"accumulate|{f.qualname}|{ast.unparse(st.func.value)[:60]}")
+    chk.floor("collections filled from child elements", n, 4)
+
+
 def run(chk: Check, repo: Repo) -> None:
+    repeated_elements_accumulate(chk, repo)
     from .common_rules import kdf_parameters
     kdf_parameters(chk, repo, ["xknx.secure.keyring:hash_keyring_password"])
     h = repo.cls(M, "KeyringSAXContentHandler")
